@@ -541,6 +541,15 @@ func (f *FuncCtx) callFunc(fn *types.Func, recv *Val, recvExpr ast.Expr, e *ast.
 	if c != nil && !c.Inline {
 		return f.callContract(fn, c, pc, recv, args, sig, e, env, short)
 	}
+	// `havoc <callee>`: explicitly abstracted by the contract under verification (results unconstrained, no effect)
+	if f.C != nil && f.spec == nil {
+		for _, h := range f.C.Havoc {
+			if h == key || h == short || h == exprStr(e.Fun) {
+				f.note("abstracted on request (havoc): " + short)
+				return f.havocResults(e, env)
+			}
+		}
+	}
 	// same package body available -> inline small helpers
 	if decl := f.E.declOf(fn); decl != nil && decl.Body != nil && f.spec == nil {
 		p := f.E.pkgOf(fn)
